@@ -347,7 +347,7 @@ spec("C08",
      cmd="c08", count=dict(quick=150, thorough=1500),
      vo_targets=["props/C08.vo"],
      level="proof",
-     rule="cases 0..2: unions of eight small balls on grid corners arranged so that two face-adjacent leaf cells share an ambiguous face (corner masks 185 over 155; the configuration the Coq model of dc_edge proves non-manifold); cases 3, 4: a 1.0 x 0.6 x 0.8 box rotated by 0.3 about z and 0.5 about x at depths 3 and 6 (a two-sheet leaf next to collapsible cells); then random 3D CSG (unions / intersections / differences / blends of spheres, boxes, scaled spheres, expanded-polynomial balls, exact box distances; nesting 0..3) with the surface inside (-1,1)^3, one case in five an oblique polyhedral shape (box, slab, slotted box, crossing boxes, box clipped by a ball) through a pure rotation, one in four with the field multiplied by a power of ten 1e-4..1e6 (the unscaled mesh is built too and must have the same volume and manifoldness); octree depth 1..6, world-to-model identity / scale 1..1.5 / scale 1.8 with an Euler rotation / perspective, no pool / global / custom pools, interpreter and JIT; every mesh is written out and judged by the extracted verified checker (closed 2-manifold, sign of the exact signed volume) which must agree with the harness; oracle: finite vertices, no repeated index, every directed edge once with its reverse once, signed volume not negative beyond the tolerance, |mesh volume - volume sampled on a 40^3 (depth >= 5: 128^3) grid| <= c1 A cell + 2 cell^3 + sampling error where A is the smaller of the mesh's area and 1.25 times the area bound counted from sign changes between neighbouring samples (so a mesh thrown out of the region cannot excuse itself), and for meshes of >= 200 triangles a majority of triangle normals pointing from inside to outside; an offending edge is the recorded finding only when (through the leaves hook) both ends are the single vertices of two face-adjacent leaves of the SAME depth whose shared face has alternating corner signs; distinct_nontrivial = distinct configurations; every cell vertex lies within one cell size of its own leaf (the guarantee proved in QefBound.v for the repaired placement, measured through the leaves hook)",
+     rule="cases 0..2: unions of eight small balls on grid corners arranged so that two face-adjacent leaf cells share an ambiguous face (corner masks 185 over 155; the configuration the Coq model of dc_edge proves non-manifold); cases 3, 4: a 1.0 x 0.6 x 0.8 box rotated by 0.3 about z and 0.5 about x at depths 3 and 6 (a two-sheet leaf next to collapsible cells); then random 3D CSG (unions / intersections / differences / blends of spheres, boxes, scaled spheres, expanded-polynomial balls, exact box distances; nesting 0..3) with the surface inside (-1,1)^3, one case in five an oblique polyhedral shape (box, slab, slotted box, crossing boxes, box clipped by a ball) through a pure rotation, one in four with the field multiplied by a power of ten 1e-4..1e6 (the unscaled mesh is built too and must have the same volume and manifoldness); octree depth 1..6, world-to-model identity / scale 1..1.5 / scale 1.8 with an Euler rotation / perspective, no pool / global / custom pools, interpreter and JIT; every mesh is written out and judged by the extracted verified checker (closed 2-manifold, sign of the exact signed volume) which must agree with the harness; oracle: finite vertices, no repeated index, every directed edge once with its reverse once, signed volume not negative beyond the tolerance, |mesh volume - volume sampled on a 40^3 (depth >= 5: 128^3) grid| <= c1 A cell + 2 cell^3 + sampling error where A is the smaller of the mesh's area and 1.25 times the area bound counted from sign changes between neighbouring samples (so a mesh thrown out of the region cannot excuse itself), and for meshes of >= 200 triangles a majority of triangle normals pointing from inside to outside; an offending edge is the recorded finding only when (through the leaves hook) both ends are the single vertices of two face-adjacent leaves of the SAME depth whose shared face has alternating corner signs; distinct_nontrivial = distinct configurations; every cell vertex lies within one cell size of its own leaf (the guarantee proved in QefBound.v for the repaired placement, measured through the leaves hook); one case in four lives away from the origin (world_to_model carries a translation of up to 8 per axis, the shape moved along); case 5: two balls on a face diagonal of one leaf cell (a two-vertex leaf) in a model at (10,10,10) at half scale; every vertex lies within one cell size of the meshing region",
      classify=classify_backend,
      assumptions=["manifoldness of the dual walk for ALL octrees is not proved: the checker decides it per mesh; the for-all content is the table theorems (all 256 masks), the fan orientation, and the checker's soundness and completeness",
                   "leaf vertices are not clamped to their cells, so features of about one cell may come out inverted: volume and orientation are judged beyond the sampling resolution only"],
@@ -357,7 +357,7 @@ spec("C09",
      cmd="c09", count=dict(quick=160, thorough=4000),
      vo_targets=["props/C09.vo"],
      level="proof",
-     rule="cases cycle through 2D render / 3D render / mesh / one tape evaluated from 12 threads at once, interpreter or JIT at random; each workload: reference without a pool (twice), three custom pools out of {1,2,3,4,5,8,12,16} threads run twice each with the schedule-point hook injecting yields and sleeps of up to 150us keyed to the task / poll number (different seed per run), the global pool, then cancellation injected through the hook at exact poll numbers {1, middle, last, random} with no pool / 2 / 4 threads, cancellation before the start, and a never-cancelled run under jitter; results compared bit for bit (images) or as sorted sets of oriented triangles over vertex bit patterns (meshes); task counts (raster root tiles after TileSizesRef trimming, octree tasks after the breadth-first expansion) and one-poll-per-tile are compared with the Coq model; distinct_nontrivial = cases (each a fresh shape and configuration); a quarter of the interpreter cases use the 3-register interpreter",
+     rule="cases cycle through 2D render / 3D render / mesh / one tape evaluated from 12 threads at once, interpreter or JIT at random; each workload: reference without a pool (twice), three custom pools out of {1,2,3,4,5,8,12,16} threads run twice each with the schedule-point hook injecting yields and sleeps of up to 150us keyed to the task / poll number (different seed per run), the global pool, then cancellation injected through the hook at exact poll numbers {1, middle, last, random} with no pool / 2 / 4 threads, cancellation before the start, and a never-cancelled run under jitter; results compared bit for bit (images) or as sorted sets of oriented triangles over vertex bit patterns (meshes); task counts (raster root tiles after TileSizesRef trimming, octree tasks after the breadth-first expansion) and one-poll-per-tile are compared with the Coq model; distinct_nontrivial = cases (each a fresh shape and configuration); a quarter of the interpreter cases use the 3-register interpreter; meshing runs under identity / scale / translation-and-anisotropic-scale transforms with a share of flat polyhedral shapes; every eighth case checks the row fan-out of Image::apply_effect (heights 1..140, pools of 1, 2, 3, 5, 8, 16 threads) against the pool-less run",
      classify=classify_backend,
      assumptions=["data races inside a task, rayon's own correctness and the memory ordering of the relaxed cancel flag are outside the model; they are exercised by the perturbed differential runs only",
                   "a late-observed flag only moves the cancellation moment later in the time order, which the theorems quantify over"],
@@ -376,7 +376,7 @@ spec("C14",
      cmd="c14", count=dict(quick=1500, thorough=60000),
      vo_targets=["props/C14.vo"],
      level="proof",
-     rule="single-root expressions (up to 40 operations, choice-heavy half of the time) over a random subset of X, Y, Z and 0..24 free variables created in one random order, folded into the root in another and supplied in a third; supplied table exact / with 1..4 extra variables / with one variable missing; no transform / affine / projective 4x4 matrices (incl. w = 0); VM point evaluation through ShapeTracingEval::eval_raw: the tape's variable order, the transformed position and the result (or the missing-variable error) must equal the Coq model (flatten + allocate + slot filling in the implementation's own map iteration order + tape run) bit for bit; oracle: direct operation-by-operation evaluation with an explicit binding, JIT point, float-slice with scalar variables and with per-sample variable arrays, gradient value lane, degenerate-box interval (VM and JIT), and the shape simplified on a box around the point (same value, no variable renumbered); distinct_nontrivial = distinct case lines; the same evaluation on evaluators that live for the whole run (every earlier shape dropped) must equal a fresh evaluator's; one case in six has a variable missing AND 28..40 unrelated extras; Shape::bind is compared with the model of ShapeVars::check over the map's own iteration order (accepted exactly when complete, which variable is named)",
+     rule="single-root expressions (up to 40 operations, choice-heavy half of the time) over a random subset of X, Y, Z and 0..24 free variables created in one random order, folded into the root in another and supplied in a third; supplied table exact / with 1..4 extra variables / with one variable missing; no transform / affine / projective 4x4 matrices (incl. w = 0); VM point evaluation through ShapeTracingEval::eval_raw: the tape's variable order, the transformed position and the result (or the missing-variable error) must equal the Coq model (flatten + allocate + slot filling in the implementation's own map iteration order + tape run) bit for bit; oracle: direct operation-by-operation evaluation with an explicit binding, JIT point, float-slice with scalar variables and with per-sample variable arrays, gradient value lane, degenerate-box interval (VM and JIT), and the shape simplified on a box around the point (same value, no variable renumbered); distinct_nontrivial = distinct case lines; the same evaluation on evaluators that live for the whole run (every earlier shape dropped) must equal a fresh evaluator's; one case in six has a variable missing AND 28..40 unrelated extras; Shape::bind is compared with the model of ShapeVars::check over the map's own iteration order (accepted exactly when complete, which variable is named); the many-point and gradient shape evaluators live for the whole run too and are called with 1..19 points, the count changing from case to case",
      classify=classify_backend,
      assumptions=["the sign of a zero result is not compared across evaluator kinds (min/max zero sign is code-generation dependent, see C02)",
                   "projective transforms with w = 0 at the point are compared for the point evaluator only (no transformed position exists)"],
@@ -397,7 +397,7 @@ spec("C11",
      cmd="c11", count=dict(quick=1500, thorough=30000),
      vo_targets=["props/C11.vo"],
      level="proof",
-     rule="60% overflow-prone compositions (square/mul by 1e30/exp/div/recip/ln/sqrt/tan/mod/atan2 chains), 40% general DAGs; points and boxes with finite coordinates up to f32::MAX; every evaluator kind (point, interval, float slice, grad slice, shape-level with a transform matrix) of interpreter and JIT in child processes; a malformed-argument round every 10th case; interpreter interval results compared with the model (value or panic); distinct_nontrivial = distinct arenas; a trace that comes back contains no Unknown and simplify accepts it; an empty batch on fresh bulk evaluators gives one empty result per output (function level and shape wrapper)",
+     rule="60% overflow-prone compositions (square/mul by 1e30/exp/div/recip/ln/sqrt/tan/mod/atan2 chains), 40% general DAGs; points and boxes with finite coordinates up to f32::MAX; every evaluator kind (point, interval, float slice, grad slice, shape-level with a transform matrix) of interpreter and JIT in child processes; a malformed-argument round every 10th case; interpreter interval results compared with the model (value or panic); distinct_nontrivial = distinct arenas; a trace that comes back contains no Unknown and simplify accepts it; an empty batch on fresh bulk evaluators gives one empty result per output (function level and shape wrapper); overflow expressions with infinite constants added / subtracted / multiplied; the shape wrapper's X, Y, Z slices with one of the three of another length (an error value, never a panic)",
      classify=classify_backend,
      assumptions=["a fault or abort in JIT code is observed through the child process exit status",
                   "the interval totality theorems over the idealised (unrounded) arithmetic are in IntervalSound (see C03); the f32 instance is tied by correspondence"],
@@ -429,7 +429,7 @@ spec("C05",
      cmd="c05", count=dict(quick=800, thorough=15000),
      vo_targets=["props/C05.vo"],
      level="proof",
-     rule="random DAGs (1-30 ops, all opcodes except the bit-hash ones, every non-constant node exported), 4 points (3 tame, 1 with special values), unit-axis seeds on the first point and arbitrary non-unit seeds on the others; interpreter grad-slice results bit-for-bit against the model; per node: value lane vs point evaluator, and the f64 chain rule from the operand duals the evaluator itself reported (local obligation; skipped near ties / zeros / integers / poles / branch cuts and for magnitudes above 1e15), interpreter and JIT; Context::deriv of the last node evaluated at the point vs forward mode with unit seeds where the whole chain is differentiable; distinct_nontrivial = distinct arenas with > 2 exported nodes; the same tapes allocated into 3 and 4 registers must give the interpreter's rows bit for bit; for a box around the first point the function is simplified with its own interval trace (interpreter and JIT) and the gradient of the simplified function compared with the original's at that point (outputs whose original value is NaN left out)",
+     rule="random DAGs (1-30 ops, all opcodes except the bit-hash ones, every non-constant node exported), 4 points (3 tame, 1 with special values), unit-axis seeds on the first point and arbitrary non-unit seeds on the others; interpreter grad-slice results bit-for-bit against the model; per node: value lane vs point evaluator, and the f64 chain rule from the operand duals the evaluator itself reported (local obligation; skipped near ties / zeros / integers / poles / branch cuts and for magnitudes above 1e15), interpreter and JIT; Context::deriv of the last node evaluated at the point vs forward mode with unit seeds where the whole chain is differentiable; distinct_nontrivial = distinct arenas with > 2 exported nodes; the same tapes allocated into 3 and 4 registers must give the interpreter's rows bit for bit; for a box around the first point the function is simplified with its own interval trace (interpreter and JIT) and the gradient of the simplified function compared with the original's at that point (outputs whose original value is NaN left out); the transform step is also checked with seeds that are not the unit axes; the value lane of the JIT's gradient rows equals the interpreter's at all four points; one case in eight has 20..70 further variables",
      classify=classify_backend,
      assumptions=["tolerance 2e-4 relative to the magnitude of the chain-rule terms for derivative lanes, 1e-4 for values, 2e-3 for the symbolic derivative (evaluated in f32)",
                   "the derivative theorems over the reals (GradSound) are in progress; the theorem here covers the value lane for every tape"],
@@ -489,7 +489,7 @@ spec("C19",
      cmd="c19", count=dict(quick=300, thorough=4000),
      vo_targets=["props/C19.vo"],
      level="proof",
-     rule="consistent diagonally-dominant linear systems with n in {1..8,10,13,16,25,40} unknowns (half-integer solutions, integer coefficients, each equation over a different subset of the variables), every variable free / every variable fixed / a random 35% fixed at their true values, starts perturbed or exactly satisfied; interpreter and JIT; through the verif hook the Jacobian must equal the coefficient matrix exactly and the seed rows are compared with the Coq model's seed table; distinct_nontrivial = systems (each has fresh variables and random coefficients); a third of the systems have coefficients times 2^10 .. 2^25 and unknowns divided by it; 30% carry one or two parameters that occur in no equation (free ones must get a value, fixed ones must not); the f32 instance of the modelled exit test is evaluated on the hook's Jacobian / residuals at the start and must agree with solve() returning the start unchanged; every solve under a 5-minute watchdog",
+     rule="consistent diagonally-dominant linear systems with n in {1..8,10,13,16,25,40} unknowns (half-integer solutions, integer coefficients, each equation over a different subset of the variables), every variable free / every variable fixed / a random 35% fixed at their true values, starts perturbed or exactly satisfied; interpreter and JIT; through the verif hook the Jacobian must equal the coefficient matrix exactly and the seed rows are compared with the Coq model's seed table; distinct_nontrivial = systems (each has fresh variables and random coefficients); a third of the systems have coefficients times 2^10 .. 2^25 and unknowns divided by it; 30% carry one or two parameters that occur in no equation (free ones must get a value, fixed ones must not); the f32 instance of the modelled exit test is evaluated on the hook's Jacobian / residuals at the start and must agree with solve() returning the start unchanged; every solve under a 5-minute watchdog; 8% of the rows of systems with 16 and more unknowns mention most of the unknowns",
      classify=classify_backend,
      assumptions=["convergence (residual <= 1e-3) is an observation on well-conditioned systems, not a theorem: the SVD / Levenberg-Marquardt core is abstract in the model"],
      )
